@@ -165,6 +165,12 @@ def run(ctx, rep):
     from .C17 import valid_size_rules
     valid_size_rules(P, rep, 'R-C01-9')
     used_parity_rule(P, rep, 'R-C01-10')
+    always_processed_rule(P, rep, 'R-C01-14')
+    modified_file_flagged_rule(P, rep, 'R-C01-15')
+    # the tests of recorded empty files, hardlinks and directories look at the entry itself: a symbolic link planted on the path
+    # (to any empty file / any directory / the link target) must not pass for the recorded entity
+    from .C18 import nofollow_probe_rule
+    nofollow_probe_rule(P, rep, 'R-C01-13', ('state_check_process',), 'check / fix of recorded empty files, hardlinks and directories', forbidden={'stat', 'stat64', 'access'})
     from .C17 import parity_read_valid_rule
     parity_read_valid_rule(P, rep, 'R-C01-11')
     from .C17 import create_accepts_damaged_size_rule
@@ -243,3 +249,70 @@ def _loads_in(f, o, depth=0, seen=None):
         for x in i.ops:
             res |= _loads_in(f, x, depth + 1, seen)
     return res
+
+
+def always_processed_rule(P, rep, rid):
+    """empty files, symbolic links, hardlinks and empty directories use no parity block; check and fix handle them at the end of
+    state_check_process.  state_check must therefore reach state_check_process for every array and every range, also when there is
+    no block to process (an array holding only such entries, or -S at the end): every path from the entry of state_check to its
+    return passes the call, except the paths that leave through exit()."""
+    from .C09 import dead_blocks
+    f = P.fn('state_check')
+    rep.analysed(f)
+    rep.rule(rid, 'state_check: every returning path passes state_check_process (empty files, links and directories are handled there even when no block is selected)', 1)
+    cs = list(f.calls('state_check_process'))
+    if not cs:
+        raise AnalysisBroken('state_check: state_check_process not called')
+    rets = f.returns()
+    ok = all(f.must_pass(r, cs) for r in rets)
+    det = '%d call site(s), every return passes one' % len(cs)
+    if not ok:
+        r0 = [r for r in rets if not f.must_pass(r, cs)][0]
+        path = f.find_path(f.entry(), r0, stop={c.id for c in cs})
+        # the condition that lets the path skip the call
+        skip = ''
+        for b in range(len(f.blocks)):
+            t = f.term(b)
+            if t.op == 'br' and len(t.ops) == 3 and any(f.bdominates(s_, cs[0].block) for s_ in t.succ) and not all(f.bdominates(s_, cs[0].block) or s_ == cs[0].block for s_ in t.succ) and f.bdominates(b, cs[0].block):
+                skip = f.xexpr(t.ops[0])
+        det = 'a path reaches the return without state_check_process (condition `%s`, lines %s): with no block to process (an array of only empty files, links and directories; -S at the end) fix recreates nothing and check reports nothing' % (skip, [p_.line for p_ in (path or [])][-6:])
+    rep.check(ok, rid, 'state_check always runs state_check_process', cs[0].loc(), det, function='state_check', construct='process skipped')
+
+
+def modified_file_flagged_rule(P, rep, rid):
+    """file_post restores the synced modification time only of files flagged FILE_IS_FIXED (and leaves alone the ones flagged
+    FILE_IS_DAMAGED).  Every operation of fix that changes the bytes or the size of a data file -- and thereby its time-stamp --
+    must therefore flag the file before the stripe loop goes on: the write of a recovered block and the truncation of a file that is
+    larger than recorded.  Rule: from each successful handle_write / handle_truncate in state_check_process every path to the next
+    iteration of the stripe loop passes file_flag_set(.., FILE_IS_FIXED or FILE_IS_DAMAGED)."""
+    f = P.fn('state_check_process')
+    rep.analysed(f)
+    rep.rule(rid, 'state_check_process: after handle_write / handle_truncate changed a data file, the file is flagged FIXED (or DAMAGED) before the next stripe, so that file_post restores its modification time', 2)
+    FIXED, DAMAGED = 0x08, 0x04
+    import re
+    # constants from the pinned header are re-read from the IR: the flag passed by the two existing FIXED sites
+    flags = [c for c in f.calls('file_flag_set') if f.const_of(c.ops[1]) is not None]
+    marks = [c for c in flags if f.const_of(c.ops[1]) in (FIXED, DAMAGED)]
+    mods = [c for c in f.calls({'handle_write', 'handle_truncate'})]
+    if not mods or not marks:
+        raise AnalysisBroken('state_check_process: modifying calls / flag sites not found')
+    outer = max(f.loops, key=lambda h: len(f.loops[h]))
+    hdr = f.blocks[outer][0]
+    n = 0
+    for c in mods:
+        if c.block not in f.loops[outer]:
+            continue
+        n += 1
+        # the failing side of the result test leaves through bail (dead for the loop); follow every path anyway and stop at marks
+        r_ = f.reach([c], stop={m_.id for m_ in marks})
+        bail = {b for b, nme in enumerate(f.bname) if nme == 'bail'}
+        esc = hdr.id in r_
+        if esc:
+            # ignore the path through the failure test (`ret == -1` -> bail): recompute with the bail blocks as stops
+            r2 = f.reach([c], stop={m_.id for m_ in marks} | {f.blocks[b][0].id for b in bail})
+            esc = hdr.id in r2
+        rep.check(not esc, rid, '%s at line %s is followed by the FIXED / DAMAGED flag' % (c.callee, c.line), c.loc(),
+                  'flag set on every path to the next stripe' if not esc else '%s changes the file (and its modification time) but a path reaches the next stripe without file_flag_set(FILE_IS_FIXED): file_post leaves the time at "now" although fix reports the file as recovered and exits 0' % c.callee,
+                  function='state_check_process', construct='%s without FIXED flag' % c.callee)
+    if n < 2:
+        raise AnalysisBroken('state_check_process: fewer modifying calls than on the pinned tree (%d)' % n)
